@@ -19,12 +19,13 @@ const modPath = "github.com/foxcpp/maddy"
 
 // Prog is the loaded, type-checked program (current working tree of -repo).
 type Prog struct {
-	Repo   string
-	Tags   string
-	Fset   *token.FileSet
-	Pkgs   []*packages.Package          // packages of module maddy, sorted by path
-	ByPath map[string]*packages.Package // every package incl. dependencies
-	LoadS  float64
+	Repo    string
+	Tags    string
+	Fset    *token.FileSet
+	Pkgs    []*packages.Package          // packages of module maddy, sorted by path
+	ByPath  map[string]*packages.Package // every package incl. dependencies
+	LoadS   float64
+	Overlay map[string][]byte // in-memory file replacements (self-test variants only)
 
 	ssa *ssaState // lazily built (ssautil.go)
 
@@ -35,7 +36,7 @@ type Prog struct {
 // the one package that is allowed to fail to load (cgo header missing in the sandbox)
 const pamHelper = modPath + "/cmd/maddy-pam-helper"
 
-func loadProg(repo, tags string) (*Prog, []string) {
+func loadProg(repo, tags string, overlay map[string][]byte) (*Prog, []string) {
 	t0 := time.Now()
 	fset := token.NewFileSet()
 	env := append(os.Environ(), "GOFLAGS=-mod=mod", "GOPROXY=off", "GOSUMDB=off", "GOWORK=off", "GOTOOLCHAIN=local")
@@ -46,6 +47,9 @@ func loadProg(repo, tags string) (*Prog, []string) {
 		Env:   env,
 		Tests: false,
 	}
+	if overlay != nil {
+		cfg.Overlay = overlay
+	}
 	if tags != "" {
 		cfg.BuildFlags = []string{"-tags=" + tags}
 	}
@@ -54,7 +58,7 @@ func loadProg(repo, tags string) (*Prog, []string) {
 	if err != nil {
 		return nil, []string{"load: " + err.Error()}
 	}
-	p := &Prog{Repo: repo, Tags: tags, Fset: fset, ByPath: map[string]*packages.Package{},
+	p := &Prog{Repo: repo, Tags: tags, Fset: fset, Overlay: overlay, ByPath: map[string]*packages.Package{},
 		declCache: map[types.Object]*FuncInfo{}, flowCache: map[ast.Node]*Flow{}}
 	packages.Visit(pkgs, nil, func(pk *packages.Package) {
 		p.ByPath[pk.PkgPath] = pk
@@ -176,6 +180,7 @@ type Check struct {
 	assume   []string
 	explain  string
 	notCover string
+	selftest map[string]interface{}
 }
 
 func newCheck(id string, p *Prog, tier string) *Check {
@@ -443,4 +448,15 @@ func (c *Check) finish(verifDir string, findings []Finding, seed int, t0 time.Ti
 		return 1
 	}
 	return 0
+}
+
+// violatedKeys returns rule|key of the obligations that do not hold (used by the self-test).
+func (c *Check) violatedKeys() map[string]bool {
+	out := map[string]bool{}
+	for _, o := range c.obs {
+		if !o.OK {
+			out[o.Rule+"|"+o.Key] = true
+		}
+	}
+	return out
 }
